@@ -173,7 +173,7 @@ def cas_identity(fam, lhs_t, rhs_fn, sub_eqs, name, pc=()):
         box = FAMILIES[fam]['box']
         dom = {u: (0.05, 0.95), v: (0.05, 0.95)}
         if not any(k is TH for k in m):
-            dom[th] = (float(box[0]) if fam != 'frank' else 0.5, float(box[1]))
+            dom[th] = (float(box[0]), float(box[1]))
         subs = gumbel_subs(u, v) if fam == 'gumbel' else None
         return with_eqs(cas.identity(lhs, rhs, dom, subs=subs, accept=accept, seeds=seeds), m)
     return run
